@@ -61,8 +61,15 @@ Judge(e) ==
       Agree(g) == IF g.r # "ok" \/ ref.r # "ok" \/ g.as = ref.as \/ Norm(g.tree, e.o) = Norm(ref.tree, e.o) THEN <<>>
                   ELSE IF PtrRecv(e.tv) \/ (HasMarshaler(e.tv) /\ IsDec(g)) THEN <<>>    \* documented / Go-inherited differences
                   ELSE IF Match(pat, g.tree) # Match(pat, ref.tree) THEN <<>>     \* already explained by the Reference layer
-                  ELSE LET df == TreeDiff(Norm(g.tree, e.o), Norm(ref.tree, e.o)) IN
-                       <<[i |-> c, kind |-> "disagrees", as |-> g.as, w |-> df.w, d |-> Own(df.key), o |-> OptStr(e.o), m |-> ref.as[1]]>>
+                  ELSE LET x == Norm(g.tree, e.o)  y == Norm(ref.tree, e.o)
+                           df == TreeDiff(x, y)
+                           \* as-implemented reading of a time.Time struct field: the oj / sen plans write the RFC 3339 string of
+                           \* MarshalJSON, the Decompose family the TimeFormat number, {} under NestEmbed, or (pruned) nothing
+                           timeField == /\ Own(df.key).fk = <<"time", "-">> /\ x.t = "obj" /\ y.t = "obj" /\ IsDec(g)
+                                        /\ df.key \in KeysOf(y) /\ CountK(y, df.key) = 1 /\ ValOf(y, df.key).t = "str"
+                                        /\ (df.key \notin KeysOf(x) \/ (CountK(x, df.key) = 1 /\ ValOf(x, df.key).t \in {"num", "obj"})) IN
+                       <<[i |-> c, kind |-> "disagrees", as |-> g.as, w |-> IF timeField THEN "as-implemented:time-field" ELSE df.w,
+                          d |-> Own(df.key), o |-> OptStr(e.o), m |-> ref.as[1]]>>
       GoC(g) == IF g.r # "ok" \/ (HasMarshaler(e.tv) /\ IsDec(g)) \/ ~e.gocompat \/ e.gj.r # "ok" \/ ~BothSupport(e.tv) \/ ~Match(pat, g.tree) \/ NilEq(g.tree, e.gj.tree) THEN <<>>
                 ELSE LET df == TreeDiff(g.tree, e.gj.tree) IN
                      <<[i |-> c, kind |-> "differs-from-encoding/json", as |-> g.as, w |-> df.w, d |-> Own(df.key), o |-> OptStr(e.o), m |-> ""]>>
